@@ -20,5 +20,9 @@ def run(ctx):
     R43 = ctx.rule('R04.3', 'emission depends on is_final and is_match of the post-accept state only; hints only prune', floor=3)
     R44 = ctx.rule('R04.4', 'the empty key is matched and reported with start()', floor=2)
     R45 = ctx.rule('R04.5', 'search_with_state reports the state after the key\'s last byte', floor=1)
-    streams.seek_rules(ctx, R41, R42, None, None, want_c03=False, want_c04=True)
-    streams.next_rules(ctx, R41, R42, R43, R44, R45, None, None, want_c03=False, want_c04=True)
+    # the in-range clause for searches: the (min, max) given to the search builders must reach the stream constructor in that order,
+    # for the plain and the with-state builder alike (R03.1, decided on the same code as C03)
+    import rules.C03 as C03
+    ctx.step(C03.r03_1, ctx)
+    ctx.step(streams.seek_rules, ctx, R41, R42, None, None, want_c03=False, want_c04=True)
+    ctx.step(streams.next_rules, ctx, R41, R42, R43, R44, R45, None, None, want_c03=False, want_c04=True)
